@@ -7,6 +7,7 @@
 package main
 
 import (
+	"bytes"
 	"context"
 	"encoding/json"
 	"fmt"
@@ -558,7 +559,87 @@ func run(c *vf.Ctx) {
 			map[string]any{"binding": binding, "history": hist, "rejected_event": ev}, nil)
 	}
 	c.Logf("T: %d events in %d traces validated", len(events), traces)
+	suite(c)
 	collectInductive(c, indDone)
+}
+
+// suite is stage S: the traces are not made by this driver but recorded from the repository's OWN test suite. The
+// state, frame and peering tests are run from /repo with the guarded hooks on (VERIF_SEQ_TRACE): every decision of
+// every SequenceHandler they create is logged inside Check while the handler's lock is held, and TLC validates the
+// log against SeqWindow_Suite (never a number twice per key epoch; new and in the window => accepted).
+func suite(c *vf.Ctx) {
+	trace := filepath.Join(c.Work, "suite-seq.ndjson")
+	_ = os.Remove(trace)
+	cmd := exec.Command("bash", "-c", fmt.Sprintf(". %s/bin/goenv.sh && cd /repo && VERIF_SEQ_TRACE=%s \"$GO\" test -tags verif -vet=off -count=1 ./state/ ./frame/ ./peering/", vf.VerifRoot, trace))
+	out, err := cmd.CombinedOutput()
+	if err != nil {
+		// the repository's tests failing is not this check's verdict; without a trace the stage cannot run
+		c.Fatal("S: the repository's tests did not pass with the hooks on: %v\n%s", err, tailStr(string(out), 1500))
+	}
+	data, err := os.ReadFile(trace)
+	if err != nil {
+		c.Fatal("S: no trace was recorded: %v", err)
+	}
+	var evs []any
+	checks := 0
+	for _, ln := range bytes.Split(data, []byte("\n")) {
+		if len(bytes.TrimSpace(ln)) == 0 {
+			continue
+		}
+		if !json.Valid(ln) {
+			c.Fatal("S: malformed trace line %q", ln)
+		}
+		if bytes.Contains(ln, []byte(`"check"`)) {
+			checks++
+		}
+		evs = append(evs, json.RawMessage(append([]byte(nil), ln...)))
+	}
+	if checks < 1000 {
+		c.Broken("S: the repository's tests produced only %d sequence decisions (hooks not reached?)", checks)
+		return
+	}
+	rejectAt, inv, tres, err := c.TraceCheck("SeqWindow_Suite", "SeqWindow_Suite.cfg", evs, vf.TLCOpts{Timeout: 20 * time.Minute, Heap: "8g"})
+	if err != nil {
+		c.Fatal("S: %v", err)
+	}
+	c.AddTraces(1)
+	c.Eval(checks)
+	c.AddModel(tres.Distinct, tres.Generated)
+	c.Stage("S", map[string]any{"events": len(evs), "decisions": checks, "packages": []string{"state", "frame", "peering"}, "wall_s": tres.Wall.Seconds()})
+	if rejectAt > 0 || inv != "" {
+		var ev map[string]any
+		_ = json.Unmarshal(evs[rejectAt-1].(json.RawMessage), &ev)
+		// the handler's history in this epoch
+		var hist []any
+		for _, e := range evs[:rejectAt] {
+			var m map[string]any
+			_ = json.Unmarshal(e.(json.RawMessage), &m)
+			if m["h"] == ev["h"] {
+				if m["ev"] == "reset" {
+					hist = nil
+				}
+				hist = append(hist, m)
+			}
+		}
+		if len(hist) > 80 {
+			hist = hist[len(hist)-80:]
+		}
+		kind := "accepted-twice"
+		if ok, _ := ev["ok"].(bool); !ok {
+			kind = "fresh-in-window-rejected"
+		}
+		c.Violation(vf.Key("suite-trace", kind),
+			fmt.Sprintf("a SequenceHandler decision recorded from the repository's own tests is not allowed by SeqWindow_Suite: line %d %v (%s)", rejectAt, ev, kind),
+			map[string]any{"rejected_event": ev, "history_tail": hist}, nil)
+	}
+	c.Logf("S: %d events (%d decisions) recorded from the repository's own tests validated", len(evs), checks)
+}
+
+func tailStr(s string, n int) string {
+	if len(s) > n {
+		return s[len(s)-n:]
+	}
+	return s
 }
 
 func initOf(r *vf.TLCResult) string {
